@@ -67,6 +67,7 @@ type Call struct {
 // ---------------- cluster ----------------
 
 type Node struct {
+	Snap        raft.SnapshotStorage // the (unwrapped) snapshot storage of the current incarnation
 	Parked      *int32 // InstallSnapshot handlers currently running or parked in this incarnation
 	ID          string
 	Addr        string
@@ -131,6 +132,7 @@ func (c *Cluster) Open(id string) error {
 		return err
 	}
 	n.Store = &Stores{budget: -1, log: lg}
+	n.Snap = ss
 	r, err := raft.NewRaft(id, n.Addr, n.FSM, n.Dir,
 		raft.WithTransport(n.T), raft.WithLog(&logW{Log: lg, s: n.Store}),
 		raft.WithStateStorage(&stateW{StateStorage: st, s: n.Store}),
@@ -888,7 +890,26 @@ func (c *Cluster) NodeS(id string) string {
 	n.FSM.mu.Unlock()
 	sb.WriteString(" fsm=" + joinOr(ops) + " applies=" + joinOr(aps))
 	fmt.Fprintf(&sb, " iswait=%d", atomic.LoadInt32(n.Parked))
+	// the most recent snapshot on disk: label, configuration, size
+	sb.WriteString(" snap=" + snapS(n.Snap))
 	return sb.String()
+}
+
+func snapS(ss raft.SnapshotStorage) string {
+	if ss == nil {
+		return "?"
+	}
+	f, err := ss.SnapshotFile()
+	if err != nil {
+		return "err"
+	}
+	if f == nil {
+		return "-"
+	}
+	defer f.Close()
+	md := f.Metadata()
+	size, _ := io.Copy(io.Discard, f)
+	return fmt.Sprintf("%d:%d:%s:%d", md.LastIncludedIndex, md.LastIncludedTerm, confBytesS(md.Configuration), size)
 }
 
 func joinOr(p []string) string {
